@@ -23,6 +23,8 @@
 #include "Token.h"
 #include "SecureDataManager.h"
 #include "HandleManager.h"
+#include "Slot.h"
+#include "SessionObjectStore.h"
 #include "OSObject.h"
 #include "OSAttribute.h"
 #undef private
@@ -162,7 +164,7 @@ public:
 // Typed storage whose constructors are NOT run (they would touch the file system / OpenSSL / the
 // real MutexFactory); every field the entry points read is written explicitly below.
 template<class T> union Raw { T x; Raw() {} ~Raw() {} };
-static Raw<SoftHSM> env_hsm_raw; static Raw<Token> env_tok_raw; static Raw<SecureDataManager> env_sdm_raw;
+static Raw<SoftHSM> env_hsm_raw; static Raw<Token> env_tok_raw; static Raw<SecureDataManager> env_sdm_raw; static Raw<Slot> env_slot_raw; static Raw<SessionObjectStore> env_sos_raw;
 static Session env_session;          // real default constructor (Session.cpp)
 static HandleManager env_hm;         // real constructor
 static SymObject env_obj[2];
@@ -171,7 +173,7 @@ static Env env;
 
 static inline void env_havoc_session(Session* s, Token* tok)
 {
-	s->slot = (Slot*)0; s->token = tok;
+	s->slot = &env_slot_raw.x; s->token = tok;
 	s->isReadWrite = nondet_bool(); s->hSession = 1;
 	s->operation = (int)nondet_uint();
 	s->reAuthentication = nondet_bool(); s->allowMultiPartOp = nondet_bool(); s->allowSinglePartOp = nondet_bool();
@@ -193,8 +195,11 @@ static inline void env_init(int nobj, size_t nbytes)
 	vassume(!(env.sdm->soLoggedIn && env.sdm->userLoggedIn));
 	env.sdm->dataMgrMutex = MutexFactory::i()->getMutex();
 	env.token->valid = true; env.token->token = 0; env.token->sdm = env.sdm; env.token->tokenMutex = MutexFactory::i()->getMutex();
-	env_havoc_session(env.session, env.token);
 	env.slotID = 1;
+	env_slot_raw.x.objectStore = 0; env_slot_raw.x.token = env.token; env_slot_raw.x.slotID = env.slotID;
+	h->sessionObjectStore = &env_sos_raw.x;
+	env_havoc_session(env.session, env.token);
+	vassume(!(env.sdm->soLoggedIn && !env.session->isReadWrite));   // no RO session while the SO is logged in (invariant proved by C03)
 	env.hSession = env.hm->addSession(env.slotID, env.session);
 	for (int i = 0; i < nobj; i++)
 	{
@@ -203,6 +208,17 @@ static inline void env_init(int nobj, size_t nbytes)
 		if (env.obj[i].getBooleanValue(CKA_TOKEN, false)) env.hObj[i] = env.hm->addTokenObject(env.slotID, priv, &env.obj[i]);
 		else env.hObj[i] = env.hm->addSessionObject(env.slotID, env.hSession, priv, &env.obj[i]);
 	}
+}
+// ------------------------------------------------------------------ store / token sinks (used through ir2c --stub)
+struct StoreLog { unsigned long tokCreates, sessCreates, decrypts, encrypts; bool lastSessPriv; CK_SESSION_HANDLE lastSessHandle; CK_SLOT_ID lastSlot; bool createFails; };
+static StoreLog store_log;
+static SymObject env_newobj;     // the object handed out by the creation sinks (starts without attributes)
+static inline void env_newobj_reset() { env_newobj.valid = true; env_newobj.destroyed = false; env_newobj.destroyOk = true; env_newobj.setOk = nondet_bool(); store_log.createFails = nondet_bool(); }
+extern "C" {
+OSObject* sink_token_createObject(Token*) { store_log.tokCreates++; return store_log.createFails ? (OSObject*)0 : &env_newobj; }
+OSObject* sink_sos_createObject(SessionObjectStore*, CK_SLOT_ID slot, CK_SESSION_HANDLE hs, bool priv) { store_log.sessCreates++; store_log.lastSessPriv = priv; store_log.lastSessHandle = hs; store_log.lastSlot = slot; return store_log.createFails ? (OSObject*)0 : &env_newobj; }
+bool sink_token_decrypt(Token*, const ByteString& in, ByteString& out) { store_log.decrypts++; model_fill(out, nondet_ulong() % (MODEL_OUT_MAX + 1)); return nondet_bool(); }
+bool sink_token_encrypt(Token*, const ByteString& in, ByteString& out) { store_log.encrypts++; model_fill(out, nondet_ulong() % (MODEL_OUT_MAX + 1)); return nondet_bool(); }
 }
 static inline bool env_user_logged_in() { return env.sdm->userLoggedIn && !env.sdm->soLoggedIn; }
 static inline bool in_supported(CK_MECHANISM_TYPE m) { for (size_t i = 0; i < env.hsm->supportedMechanisms.n_; i++) if (env.hsm->supportedMechanisms.s_[i] == m) return true; return false; }
